@@ -227,7 +227,7 @@ def direct_body(ctx: Ctx, p: dict) -> None:
                         ctx.violation("C12/std-border-not-nan", f"{(r, c)}: {g[r, c]}")
                     continue
                 e = float(np.std(img[r - off:r + off + 1, c - off:c + off + 1].astype(np.float64)))
-                if abs(g[r, c] - e) > 1e-5 * max(1.0, e) + 1e-5:
+                if not (abs(g[r, c] - e) <= 1e-5 * max(1.0, e) + 1e-5):  # NaN is wrong too
                     ctx.violation("C12/std-intensity-wrong", f"{(r, c)}: {g[r, c]} expected {e} win={p['win']}")
         nontrivial = True
     elif method in ("ambiguity", "risk"):
